@@ -2,6 +2,6 @@ SPECIFICATION MCSpec
 CONSTANTS
   TW = 2
   Guards = {"leafhash", "tiles", "index", "logid", "ts", "sig", "cpsig"}
-  Sizes = {1, 2, 3, 4, 5, 8, 9, 13}
+  Sizes = {1, 2, 3, 4, 5, 8, 9}
 INVARIANTS InvSound InvExpect InvPristine InvUncovered
 CHECK_DEADLOCK FALSE
